@@ -15,6 +15,7 @@ from fractions import Fraction
 from vlib.core import ROOT, BUILD, NPROC
 from props import C03_lib as L
 
+CLIP_UNITS = ['RC_isInsideEdge', 'RC_intersectionLineX', 'RC_intersectionLineY', 'RC_intersection', 'ENB_computeDepthDelta']
 UNITS = ['OV_isResultOfOp', 'OV_getLocation1', 'OV_isResultOfOpPoint', 'OV_resultDimension', 'OV_isEmptyResult', 'OV_getLocation3',
          'OV_isBoundary1', 'OV_getLineLocation1', 'OV_getLocationBoundaryOrLine']
 BIN = {'INT': (1, 'GEOSIntersection_r'), 'UNI': (2, 'GEOSUnion_r'), 'DIF': (3, 'GEOSDifference_r'), 'SYM': (4, 'GEOSSymDifference_r')}
@@ -585,6 +586,146 @@ def shrink(ctx, runner, c, clause, budget=60):
     return cur
 
 
+# ------------------------------------------------------------------ clipping optimisation: RingClipper::clip / computeDepthDelta vs the model
+def clip_ring_cases(rng):
+    """(family, box, ring) on integer coordinates.  'exact' families only use segments whose slope is 0, infinite or +-2^k, so that
+    every intersection ordinate is computed exactly in binary64 and must equal the rational model bit for bit; 'general' rings
+    are compared within 1e-9 after collapsing near-duplicates (rounding can split / merge two coincident intersection points)."""
+    def rbox():
+        x0 = 2 * rng.randint(-4, 1); y0 = 2 * rng.randint(-4, 1)
+        return (x0, x0 + 2 * rng.randint(1, 5), y0, y0 + 2 * rng.randint(1, 5))
+    def walk(start, n, lim, on=None):
+        """closed walk with axis-parallel / 45 degree / slope 2, 1/2 steps; `on` = ordinates to hit often (box lines)"""
+        pts = [start]; x, y = start
+        for _ in range(n):
+            k = 2 * rng.randint(1, 4)
+            dx, dy = rng.choice([(k, 0), (-k, 0), (0, k), (0, -k), (k, k), (k, -k), (-k, k), (-k, -k), (k, 2 * k), (-2 * k, k), (2 * k, -k), (-k, -2 * k)])
+            if on and rng.random() < 0.4:
+                # land exactly on a box line with an axis-parallel step
+                if rng.random() < 0.5: dx, dy = rng.choice(on[0]) - x, 0
+                else: dx, dy = 0, rng.choice(on[1]) - y
+            nx, ny = max(-lim, min(lim, x + dx)), max(-lim, min(lim, y + dy))
+            if (nx - x, ny - y) != (dx, dy):
+                nx, ny = (nx, y) if rng.random() < 0.5 else (x, ny)       # clamped: keep it axis-parallel
+            if (nx, ny) != (x, y) or rng.random() < 0.05:                 # (a few repeated points on purpose)
+                pts.append((nx, ny)); x, y = nx, ny
+        # close with axis-parallel steps
+        if x != start[0]: pts.append((start[0], y))
+        if pts[-1] != start: pts.append(start)
+        return pts
+    out = []
+    for i in range(40):
+        b = rbox(); x0, x1, y0, y1 = b
+        out.append(('walk', b, walk((2 * rng.randint(-7, 7), 2 * rng.randint(-7, 7)), rng.randint(3, 14), 16)))
+        out.append(('on-line', b, walk((rng.choice([x0, x1, x0 + 2]), rng.choice([y0, y1, y1 - 2])), rng.randint(3, 12), 16, on=([x0, x1], [y0, y1]))))
+    for i in range(12):
+        b = rbox(); x0, x1, y0, y1 = b
+        # entirely inside (strictly), entirely outside, touching a corner from outside, containing the box
+        out.append(('inside', b, [(x0 + 1, y0 + 1), (x0 + 1, y1 - 1), (x1 - 1, y1 - 1), (x1 - 1, y0 + 1), (x0 + 1, y0 + 1)][::rng.choice([1, -1])]))
+        out.append(('outside', b, [(x1 + 2, y0), (x1 + 6, y0), (x1 + 6, y1 + 4), (x1 + 2, y1 + 4), (x1 + 2, y0)]))
+        cx, cy = rng.choice([(x0, y0), (x0, y1), (x1, y0), (x1, y1)])
+        sx, sy = (-1 if cx == x0 else 1), (-1 if cy == y0 else 1)
+        out.append(('corner-touch', b, [(cx, cy), (cx + 4 * sx, cy), (cx + 4 * sx, cy + 4 * sy), (cx, cy + 4 * sy), (cx, cy)][::rng.choice([1, -1])]))
+        out.append(('corner-diagonal', b, [(cx - 4 * sx, cy + 4 * sy), (cx + 4 * sx, cy - 4 * sy), (cx + 4 * sx, cy + 4 * sy), (cx - 4 * sx, cy + 4 * sy)][::rng.choice([1, -1])]))
+        out.append(('contains-box', b, [(x0 - 2, y0 - 2), (x0 - 2, y1 + 2), (x1 + 2, y1 + 2), (x1 + 2, y0 - 2), (x0 - 2, y0 - 2)][::rng.choice([1, -1])]))
+        # excursions from an inner square through one, two (corner) and three edges
+        mx, my = (x0 + x1) // 2, (y0 + y1) // 2
+        base = [(mx, my)]
+        ex1 = [(mx, my), (x1 + 4, my), (x1 + 4, my + 1), (mx, my + 1), (mx, my)]
+        ex2 = [(mx, my), (x1 + 4, my), (x1 + 4, y1 + 4), (mx, y1 + 4), (mx, my)]
+        ex3 = [(mx, my), (x1 + 4, my), (x1 + 4, y1 + 4), (x0 - 4, y1 + 4), (x0 - 4, my), (mx, my)]
+        for nm, r in (('excursion-1', ex1), ('excursion-2', ex2), ('excursion-3', ex3)):
+            k = rng.randrange(len(r) - 1); rr = r[:-1][k:] + r[:-1][:k]; rr.append(rr[0])
+            out.append((nm, b, rr[::rng.choice([1, -1])]))
+    for i in range(16):
+        # notch through the top (or bottom) edge of the box, subdivided sides, every start vertex / direction (the wave-7 shape)
+        w = 2 * rng.randint(4, 6); h = 2 * rng.randint(4, 6); a = 2 * rng.randint(1, 2); c = a + 2 * rng.randint(1, 2); top = h - rng.choice([1, 2])
+        side = lambda x, ys: [(x, y) for y in ys]
+        up = list(range(0, h + 1, 2)); dn = up[::-1]
+        nu = [y for y in range(0, top, 2)] + [top]
+        r = side(0, up) + side(w, dn) + side(c, nu) + side(a, nu[::-1])
+        if rng.random() < 0.5: r = [(x, h - y) for x, y in r]
+        k = rng.randrange(len(r)); r = r[k:] + r[:k]; r.append(r[0])
+        if rng.random() < 0.5: r.reverse()
+        yb = rng.randint(0, h // 2 - 1)
+        out.append(('notch', (-1, w + 1, yb, yb + rng.randint(1, max(1, top - yb - 1))), r))
+    for i in range(30):
+        b = rbox() if rng.random() < 0.5 else (2 * rng.randint(-4, 0) - 1, 2 * rng.randint(1, 4) + 1, 2 * rng.randint(-4, 0) - 1, 2 * rng.randint(1, 4) + 1)
+        n = rng.randint(3, 9)
+        r = [(rng.randint(-12, 12), rng.randint(-12, 12)) for _ in range(n)]; r.append(r[0])
+        out.append(('general', b, r))
+    return out
+
+
+def clip_stream(ctx, rng):
+    """R-tie of C03/ClipDefs.clip (hand-written loop around the generated isInsideEdge / intersection) and of the generated
+    computeDepthDelta: real library vs extracted model, vertex for vertex"""
+    t0 = time.time()
+    drv = ctx.ocaml_driver('C03clip')
+    hexe = os.path.join(BUILD, 'bin', 'c03_clip')
+    if not drv or not ctx.cxx(os.path.join(ROOT, 'harness/c03_clip.cpp'), hexe, 'rel'):
+        return
+    cases = clip_ring_cases(rng)
+    lines = ['CLIP %d %d %d %d %d %s' % (b + (len(r), ' '.join('%d %d' % p for p in r))) for _, b, r in cases]
+    impl = ctx.run_lines([hexe], lines, timeout=120)
+    model = ctx.run_lines([drv], lines, timeout=300)
+    fam = {}; nbad = 0; changed = 0
+    def frs(toks): return [Fraction(t) for t in toks]
+    for (f, b, r), ln, io, mo in zip(cases, lines, impl, model):
+        ok = io.startswith('OK ') and mo.startswith('OK ')
+        if ok:
+            it, mt = io.split()[2:], mo.split()[2:]
+            iv = [Fraction(float(t)) for t in it]; mv = frs(mt)
+            if f == 'general':
+                def collapse(v):
+                    pts = list(zip(v[0::2], v[1::2])); o = []
+                    for p_ in pts:
+                        if not o or max(abs(p_[0] - o[-1][0]), abs(p_[1] - o[-1][1])) > Fraction(1, 10 ** 9): o.append(p_)
+                    while len(o) > 1 and max(abs(o[-1][0] - o[0][0]), abs(o[-1][1] - o[0][1])) <= Fraction(1, 10 ** 9): o.pop()
+                    return o
+                ci, cm = collapse(iv), collapse(mv)
+                ok = len(ci) == len(cm) and all(max(abs(p_[0] - q_[0]), abs(p_[1] - q_[1])) <= Fraction(1, 10 ** 9) for p_, q_ in zip(ci, cm))
+            else:
+                ok = iv == mv
+            if ok and mv != [Fraction(v) for p_ in r for v in p_]: changed += 1
+        d = fam.setdefault(f, [0, 0]); d[0] += 1
+        ctx.count(('clip', ln), True)
+        if not ok:
+            d[1] += 1; nbad += 1
+            if nbad <= 3:
+                ctx.violation('clip_%d' % nbad, dict(clause='clip-correspondence', family=f, box=b, ring=r, implementation_output=io, model_output=mo,
+                                                     expected='RingClipper::clip = C03/ClipDefs.clip (extracted) vertex for vertex' + (' within 1e-9 after collapsing near-duplicates' if f == 'general' else ', exactly'),
+                                                     replay='echo "%s" | %s ; echo "%s" | %s' % (ln, hexe, ln, drv)),
+                              msg='RingClipper::clip differs from the model (%s): impl %s | model %s' % (f, io[:160], mo[:160]))
+    # depth delta: the real computeDepthDelta on a ring vs the generated table applied to the real Orientation::isCCW of THAT ring
+    dl = []
+    for f, b, r in cases:
+        if len(r) >= 4 and r[0] == r[-1]:
+            dl.append('DD %d %d %s' % (rng.randint(0, 1), len(r), ' '.join('%d %d' % p for p in r)))
+    dl = dl[:120]
+    dimpl = ctx.run_lines([hexe], dl, timeout=120)
+    ml = ['DD %s %s' % (l.split()[1], o.split()[2]) if o.startswith('OK ') else '?' for l, o in zip(dl, dimpl)]
+    dmod = ctx.run_lines([drv], ml, timeout=120)
+    seen = set(); dbad = 0
+    for l, o, m_ in zip(dl, dimpl, dmod):
+        ctx.count(('depthdelta', l), True)
+        if o.startswith('OK '): seen.add((l.split()[1], o.split()[2]))
+        if not (o.startswith('OK ') and m_.startswith('OK ') and o.split()[1] == m_.split()[1]):
+            dbad += 1
+            if dbad <= 2:
+                ctx.violation('depthdelta_%d' % dbad, dict(clause='depth-delta-table', line=l, implementation_output=o, model_output=m_,
+                                                           expected='computeDepthDelta(ring, isHole) = table(isHole, Orientation::isCCW(ring))',
+                                                           replay='echo "%s" | %s' % (l, hexe)), msg='computeDepthDelta differs from the generated table: %s vs %s' % (o, m_))
+    ctx.notes['clip_stream'] = dict(families={k: v[0] for k, v in fam.items()}, mismatches={k: v[1] for k, v in fam.items() if v[1]}, rings_changed_by_clipping=changed,
+                                    depth_delta_cases=len(dl), depth_delta_table_rows_seen=sorted(seen), seconds=round(time.time() - t0, 1))
+    for k in ('walk', 'on-line', 'inside', 'outside', 'corner-touch', 'corner-diagonal', 'contains-box', 'excursion-1', 'excursion-2', 'excursion-3', 'notch', 'general'):
+        if fam.get(k, [0])[0] == 0:
+            ctx.broken.append(dict(kind='generator', name='clip-stream', detail='no clip case of family ' + k))
+    if len(seen) < 4:
+        ctx.broken.append(dict(kind='generator', name='clip-stream', detail='depth delta table rows seen: %s' % sorted(seen)))
+    ctx.log('clip stream: %d rings (%d changed by clipping), %d mismatches; depth delta %d cases, %d mismatches (%.1fs)' % (len(cases), changed, nbad, len(dl), dbad, time.time() - t0))
+
+
 # ------------------------------------------------------------------ the check
 def run(ctx):
     ctx.cov['rule'] = ('one evaluation = one overlay call on valid inputs whose result went through the extracted checker; non-trivial = both '
@@ -601,8 +742,10 @@ def run(ctx):
         'validity of generated inputs is decided by Lib/ValidDefs on the scaled integers; inputs it rejects are not evaluated']
     t0 = time.time()
     ok_build = ctx.build_repo('rel')
-    ctx.translate(UNITS)
+    ctx.translate(UNITS + CLIP_UNITS)
     ok_coq, ax = ctx.coq_build('Properties_C03')
+    if ok_build and not ctx.replay:
+        clip_stream(ctx, random.Random(ctx.seed * 7919 + 13))
     drv = ctx.ocaml_driver('C03')
     hexe = os.path.join(BUILD, 'bin', 'c03')
     if not ok_build or not drv or not ctx.cxx(os.path.join(ROOT, 'harness/c03.cpp'), hexe, 'rel'):
